@@ -353,6 +353,8 @@ func runC01(c *kit.Ctx) {
 	}
 	// a region marked unavailable is waited for even if it still has a connection (shared with C17.R3)
 	retryLoopsWait(c)
+	// a server that says "the region is not here (any more)" makes the client look the region up again
+	exceptionTableOracle(c)
 	discoverersDetachOverlaps(c)
 
 	// ---- R3 ---------------------------------------------------------------
